@@ -214,8 +214,25 @@ pub broadcast proof fn axiom_as_bytes_string_ref(c: &String)
 #[verifier::reject_recursive_types(B)]
 pub struct ExLines<B>(std::io::Lines<B>);
 
-/// used for log/diagnostic text only: no contract
-pub assume_specification<'a>[ String::from_utf8_lossy ](v: &'a [u8]) -> std::borrow::Cow<'a, str>;
+/// the characters of a Cow<str>
+pub uninterp spec fn cow_v(c: &std::borrow::Cow<'_, str>) -> Seq<char>;
+/// String::from_utf8_lossy: valid UTF-8 is decoded as is, invalid sequences become U+FFFD (not modelled further)
+pub uninterp spec fn lossy(b: Seq<u8>) -> Seq<char>;
+
+pub assume_specification<'a>[ String::from_utf8_lossy ](v: &'a [u8]) -> (r: std::borrow::Cow<'a, str>)
+    ensures
+        cow_v(&r) == lossy(v@),
+;
+
+/// Display for Cow<str> prints the string itself
+#[verifier::external_body]
+pub broadcast proof fn axiom_cow_to_string(c: &std::borrow::Cow<'_, str>, s: String)
+    requires
+        #[trigger] vstd::string::to_string_from_display_ensures::<std::borrow::Cow<'_, str>>(c, s),
+    ensures
+        s@ == cow_v(c),
+{
+}
 
 /// R7: `a != b` between a Vec<u8> and a byte slice (std's PartialEq<&[U]> for Vec<T>): element-wise comparison
 #[verifier::external_body]
